@@ -199,6 +199,7 @@ def search(ctx):
     # 1. corpus of past failures first: the regime-switch scenarios (fixed in /repo) and the SILK budget-bust scenario
     _run_search(h, ['scen', 'regime-switch', '0', '16', '1', '0'], env, wit, stats)
     _run_search(h, ['scen', 'silk-bust', '0', '1', '1', '0'], env, wit, stats)
+    _run_search(h, ['scen', 'low-budget-gray', '0', '1', '1', '0'], env, wit, stats)
     # 2. digital silence at complexity >= 7 / Fs >= 16 kHz must reach DTX within the stated window (real detector)
     stride = 6 if q else 1
     _run_search(h, ['scen', 'silence-grid', str(ctx.seed % stride), '648', str(stride), '0'], env, wit, stats)
